@@ -30,8 +30,10 @@ Enter(n, cont) ==
     /\ n \in 1..N                                   \* nothing is visited that is not part of the tree
     /\ n \notin entered                             \* once
     /\ (stack = <<>> => par[n] = 0)                 \* the walk starts at the root
-    /\ (stack # <<>> => Top \in Anc(n))             \* a child never before its parent, and only inside the node being walked
-    /\ \A a \in Anc(n) : a \in entered => a \in OnStack     \* not under a stopped node, not after its parent's Exit
+    \* (the ancestors and the stack are computed once per step: deep trees make them large)
+    /\ \E an \in {Anc(n)} : \E os \in {OnStack} :
+          /\ (stack # <<>> => Top \in an)           \* a child never before its parent, and only inside the node being walked
+          /\ \A a \in an : a \in entered => a \in os      \* not under a stopped node, not after its parent's Exit
     /\ entered' = entered \cup {n}
     /\ stack' = (IF cont THEN Append(stack, n) ELSE stack)
     /\ stopped' = (IF cont THEN stopped ELSE stopped \cup {n})
